@@ -58,6 +58,9 @@ def ser(v, depth=0) -> str:
         return f"D {len(v)}" + "".join(" " + ser(k, depth + 1) + " " + ser(x, depth + 1) for k, x in v.items())
     if isinstance(v, type):
         return f"O type:{v.__qualname__} 0"
+    import io as _io
+    if isinstance(v, _io.StringIO):
+        return f"O StringIO 1 value S {cps(v.getvalue())}"
     if dataclasses.is_dataclass(v):
         import re
         fs = [f for f in dataclasses.fields(v) if not isinstance(getattr(v, f.name), re.Pattern)]  # compiled patterns are class furniture, not data
@@ -547,7 +550,75 @@ def cases_field(rng, n):
     return out
 
 
+def cases_from_file(rng, n):
+    """`Chart.from_file`: the scanner (its `islice` bodies made lists), the four section parsers and the constructor are recorded; the
+    file object is a value holding its text, `.read` / `.splitlines` are tabulated"""
+    import io
+    import itertools
+    import types
+
+    import chartparse.chart as cc
+    from chartparse.chart import Chart
+    from chartparse.globalevents import GlobalEventsTrack
+    from chartparse.instrument import Difficulty, Instrument, InstrumentTrack
+    from chartparse.metadata import Metadata
+    from chartparse.sync import SyncTrack
+
+    from . import gen
+    out = []
+    prof = gen.Profile(max_tracks=3, max_groups=3, max_events=2, max_tempo=2, meta_fields=0.1, unknown_sections=0.4, garbage=0.05)
+    ins, dif = list(Instrument), list(Difficulty)
+    for k_ in range(max(8, n // 2)):
+        src = gen.rand_src(rng, prof)
+        text = gen.render(src, rng, prof).text
+        r = rng.random()
+        if r < 0.15:
+            # a required section missing, a section written twice, a broken sync section
+            text = text.replace(rng.choice(["[Events]", "[SyncTrack]", "[Song]"]), "[Other]", 1)
+        elif r < 0.25:
+            text = text.replace("0 = B ", "1 = B ", 1)
+        have = [(t.inst, t.diff) for t in src.tracks]
+        want = rng.choice([None, None, [], have[:1], have[1:], have[::-1] + [(rng.randrange(10), rng.randrange(4))], [(rng.randrange(10), rng.randrange(4))]])
+        want_arg = None if want is None else rng.choice([list, tuple])((ins[i], dif[d]) for i, d in want)
+        shim = types.SimpleNamespace(**{k: getattr(itertools, k) for k in dir(itertools) if not k.startswith("_")})
+        shim.islice = lambda seq, a, b: list(itertools.islice(seq, a, b))
+        rec = Recorder()
+        fp = io.StringIO(text)
+        raw = cc.itertools
+        cc.itertools = shim
+        made = []
+        init = Chart.__init__
+
+        def __init__(self, *a, _init=init, _made=made, **kw):
+            _init(self, *a, **kw)
+            _made.append((a, self))
+        Chart.__init__ = __init__
+        try:
+            with rec.patch(Chart, "_partition_lines_by_data_section", "._partition_lines_by_data_section", lambda a, kw: [a[0], a[1]]), \
+                    rec.patch(Metadata, "from_chart_lines", "Metadata.from_chart_lines", lambda a, kw: [a[1]]), \
+                    rec.patch(SyncTrack, "from_chart_lines", "SyncTrack.from_chart_lines", lambda a, kw: [a[1], a[2]]), \
+                    rec.patch(GlobalEventsTrack, "from_chart_lines", "GlobalEventsTrack.from_chart_lines", lambda a, kw: [a[1], a[2]]), \
+                    rec.patch(InstrumentTrack, "from_chart_lines", "InstrumentTrack.from_chart_lines", lambda a, kw: [a[1], a[2], a[3], a[4]]):
+                real = show_result(Chart.from_file, fp, want_tracks=want_arg)
+        except Unserialisable:
+            continue
+        finally:
+            cc.itertools = raw
+            Chart.__init__ = init
+        if not rec.ok:
+            continue
+        table = [f".read 1 {ser(io.StringIO(text))} R {ser(text)}", f".splitlines 1 {ser(text)} R {ser(text.splitlines())}"]
+        try:
+            for a, c in made:
+                table.append(f"() 5 {ser(Chart)} " + " ".join(ser(x) for x in a) + f" R {ser(c)}")
+        except Unserialisable:
+            continue
+        out.append((request("fromFile", [Chart, io.StringIO(text), want_arg], table + rec.log), real, "fromFile"))
+    return out
+
+
 GENERATORS = {
+    "fromFile": cases_from_file,
     "parseAllLinesForField": cases_field,
     "notesPerSecond": cases_rate,
     "partitionLines": cases_scanner,
